@@ -45,6 +45,9 @@ CHECKS = {
  "C18": dict(level="model_checking", technique="explicit-state BFS over event histories of a real routing.Core per spray variant and budget, conservation invariant on copy counts in every state",
    text="Spray-and-wait and binary spray with budgets L=1..4 (quick) / 1..8 (thorough): BFS over submission, reception (binary: carrying L copies), relays and destination up/down, send outcome switches and retry ticks from the initial state and from a root with one failing and one working relay. In every state: successful transmissions to non-destination peers <= L-1; copies kept (read from the algorithm's table) plus copies given away (spray: successes; binary: announced copies parsed from the transmitted bundles) equal the copies held, i.e. a failed transmission gives its copies back and nothing leaks; a single-copy holder transmits only to the destination.",
    note="Trusted: as C05; read-only bridge into the spray metadata table. Concurrent failure reports: schedule exploration (see DESIGN).", design="3/C18"),
+ "C06": dict(level="exploration", technique="bounded-exhaustive enumeration of forwarding scenarios on a live routing.Core with a byte-level block-by-block oracle on what the convergence sender receives",
+   text="Per routing algorithm ~600 (quick) / ~33k (thorough, full 0..255 hop triangle) scenarios: received bundle shapes (previous-node / unknown blocks with keep, remove, replicate, report flags / CRC mixes) x hop count and limit on the 8-bit boundaries x bundle-age modes (none, with clock, clock-less) x residence times 0..7 s x lifetime ending 1 ms before or after the send x first/second/third attempt x direct delivery or relay. Every byte string handed to the mock convergence sender is parsed, CRC-checked by the reference and compared with the accepted bundle: primary block and payload byte-identical, hop count = received+1 on every attempt, previous node = this node, age = received + residence in ms exactly, remove-flagged unknown blocks gone, other blocks unchanged; exceeded/expired bundles are never sent and leave the store (at the latest with the cleaning job).",
+   note="Trusted: as C05; one long-lived node per batch of 150 scenarios. Equality of elapsed time and lifetime is not tested (boundary not fixed by the statement).", design="3/C06"),
 }
 NA_REASON = "check not built yet in this round (planned in DESIGN.md section 3)"
 
